@@ -180,3 +180,19 @@ OBLIGATIONS['C12'] = [
     for i, fn in enumerate(_c12_fns)]
 OBLIGATIONS['C12'] += [o for o in OBLIGATIONS['C07'] if o.name.startswith('init_')]
 META['C12'] = dict(outside='what OpenSSL returns where it deviates from the sizes the SoftHSM code itself computes; call sequences longer than one step (each call is run from an arbitrary state of the session)', assumptions=['crypto back end = sink monitors with nondeterministic results and output lengths (harness/common/crypto_model.h)'])
+
+# ----------------------------------------------------------------------------- C19
+FIND_STUBS = {'_ZN5Token10getObjectsERSt3setIP8OSObjectSt4lessIS2_EvE': 'stub_token_getObjects',
+              '_ZN18SessionObjectStore10getObjectsEmRSt3setIP8OSObjectSt4lessIS2_EvE': 'stub_sos_getObjects',
+              '_ZN5Token7decryptERK10ByteStringRS0_': 'det_token_decrypt', '_ZN5Token7encryptERK10ByteStringRS0_': 'tag_token_encrypt'}
+OBLIGATIONS['C19'] = [
+    Ob('findop_batching', 'C19/findop_unit.cpp', ['object_store/FindOperation.cpp'], defines={}, unwind=6, caps='C19/caps.h',
+       desc='FindOperation::retrieveHandles + eraseHandles from an arbitrary pending set: a batch returns the min(n,max) smallest handles in order, removes exactly those, writes nothing beyond the count; an empty batch loses nothing', bounds='<= 3 pending handles, batch size 0..4'),
+    Ob('find_filter', 'C19/find_entry.cpp', ENTRY_REAL_NOP11 + ['object_store/FindOperation.cpp'], defines={'BS_CAP': 9, 'MODEL_OUT_MAX': 4, 'NOBJ': 1, 'TMAX': 0, 'VSTL_CAP': 2}, unwind=5, stubs=FIND_STUBS, caps='common/entry_caps.h',
+       unwind_rules=[(r'^harness', 40), (r'ByteString|ir_mem|memcmp|model_fill|havoc|token_decrypt|token_encrypt|ref_match', 11)],
+       desc='C_FindObjectsInit with an empty template over a symbolic object: exactly the valid objects the session may see are captured (private ones only with the user logged in - not in public or SO sessions - and then no handle is even issued), C_FindObjects batches, operation state', bounds='1 object, empty template, batch size 0..2', timeout=3000, tiers=('thorough',)),
+    Ob('find_init', 'C19/find_entry.cpp', ENTRY_REAL_NOP11 + ['object_store/FindOperation.cpp'], defines={'BS_CAP': 9, 'MODEL_OUT_MAX': 4, 'NOBJ': 1, 'TMAX': 1}, unwind=5, stubs=FIND_STUBS, caps='common/entry_caps.h',
+       unwind_rules=[(r'^harness', 40), (r'ByteString|ir_mem|memcmp|model_fill|havoc|token_decrypt|token_encrypt|ref_match', 11)],
+       desc='C_FindObjectsInit + C_FindObjects over two symbolic objects and a symbolic template: the captured handle set equals the reference matcher (sound and complete), private objects invisible unless the user is logged in (no handle issued), batches return each handle exactly once and never write beyond ulMaxObjectCount, a failed Init leaves no operation',
+       bounds='1 object, template <= 1 entry over CKA_TOKEN/CLASS/LABEL/ID/PRIVATE/unknown with lengths 0..8, byte values <= 2 bytes, batch size 0..2', timeout=3000, tiers=('thorough',))]
+META['C19'] = dict(outside='populations of more than 2 objects / templates of more than 2 entries; candidate collection inside OSToken / SessionObjectStore (the two sources are cut: they deliver the objects of this token / slot)', assumptions=['tagging model of Token::decrypt'])
